@@ -125,6 +125,12 @@ CHECKS = {
             "must be on the cells of the cursor character.",
             "ASCII/tab/accented/CJK text only; attributes ignored; split screens: only the active window is compared with the buffer "
             "(stale inactive window = known finding F24).", "3/C19"),
+    "C07": ("exploration", "model-based property testing of vi motions against a reference over code points and display columns",
+            "Generated (text with tabs, wide, multi-byte and combining characters, empty lines and buffers; start position; sequences of "
+            "1-12 motions with counts and marks; window height) run through vi -v; the cursor observed by a marker character must equal "
+            "models/vim.py (word classes, paragraph, bracket matching, find/till with ; and ,, sticky column, window-relative H M L), the "
+            "text must be unchanged and the cursor never on the terminator of a non-empty line.",
+            "Reference trusted with documented calibrations; left-to-right text only.", "3/C07"),
 }
 
 ALL = ["C%02d" % i for i in range(1, 21)]
